@@ -213,6 +213,7 @@ impl SweepCheck {
         if self.epilogue_polls > 0 {
             let mut d = WithEpilogue::new(g, self.epilogue_polls);
             d.round_trip = self.round_trip;
+            d.tight_limits = self.id == "C16";
             let (mut log, world) = run_case(&cfg, seed, &mut d, max_steps + self.epilogue_polls + 32);
             log.epilogue = true;
             log.epilogue_from = d.from_step;
@@ -950,7 +951,7 @@ pub fn all() -> Vec<Box<dyn Check>> {
     Box::new(SweepCheck {
         id: "C16",
         level: "fault_enumeration",
-        rule: "liveness restated as bounded progress: the end state of every explored history (random programs re-executed with a transport fault at every I/O call index and a cancellation at every await index; saturated queues, crashes in the middle of a replay) is continued benignly (reconnect with the session present if the client asks for it, whole-buffer transport, broker acknowledging everything at once, no restrictive limits) and poll() is called until the client goes idle; it must do so within N = 208 + 8 x inbound backlog calls, be publish-quiescent with every non-invalidated handle complete and no owed control packet left, never exceed the per-call watchdog budget (4096 transport calls), and poll() may return Ok(None) only after a byte moved or a flush completed. Non-trivial iff the continuation started with queued entries or after a failed operation; distinct keys = end-state shapes (retained/release/control/inbound-QoS2 counts).",
+        rule: "liveness restated as bounded progress: the end state of every explored history (random programs re-executed with a transport fault at every I/O call index and a cancellation at every await index; saturated queues, crashes in the middle of a replay) is continued benignly (reconnect with the session present if the client asks for it, whole-buffer transport, broker acknowledging everything at once; one continuation in three announces the smallest Maximum Packet Size - at least 5 - under which every packet the session still holds fits, the others no limits) and poll() is called until the client goes idle; it must do so within N = 208 + 8 x inbound backlog calls, be publish-quiescent with every non-invalidated handle complete and no owed control packet left, never exceed the per-call watchdog budget (4096 transport calls), and poll() may return Ok(None) only after a byte moved or a flush completed. Non-trivial iff the continuation started with queued entries or after a failed operation; distinct keys = end-state shapes (retained/release/control/inbound-QoS2 counts).",
         assumptions: COMMON_ASSUME.to_vec(),
         workloads: vec![("replay-heavy", 150, 15_000, replay_heavy as ProfileFn), ("inbound-heavy", 100, 10_000, inbound_heavy), ("general", 100, 10_000, general), ("keepalive-mix", 100, 10_000, keepalive_mix)],
         monitor: m::c16::check,
@@ -961,7 +962,7 @@ pub fn all() -> Vec<Box<dyn Check>> {
         mode: SweepMode::Both,
         plain_from: usize::MAX,
         min_nt: (200, 2000),
-        required: vec!["continuations_judged", "quiescent_in_the_end"],
+        required: vec!["continuations_judged", "quiescent_in_the_end", "continuations_with_tight_packet_size_limit"],
     }),
     Box::new(crate::inbound::C08),
     Box::new(crate::leak::C17),
